@@ -114,3 +114,10 @@ for q, adj in (('HoRT', ADJ), ('GoRT', ADJ), ('SoR', '0'), ('CpoR', '0'), ('CvoR
 contract(SM + '.get_HoRT', P, label='verbose-reference-slot',
          args=dict(self=species(), T=T, verbose=Const(True)), requires=['T > 0'],
          ensures=['result[5] == ' + ADJ], cross_check=False)
+# the dimensional getters follow the switch too (they forward it to the dimensionless ones)
+for q, dimless in (('H', 'HoRT'), ('G', 'GoRT'), ('U', 'UoRT'), ('F', 'FoRT')):
+    for flag in (True, False):
+        contract(SM + '.get_' + q, P, label='references-%s' % ('on' if flag else 'off'),
+                 args=dict(self=species(), units=Const('kJ/mol'), T=T, use_references=Const(flag)), requires=['T > 0'],
+                 ensures=[('same-switch-as-dimensionless',
+                           "result == self.get_%s(T=T, use_references=%s) * const.R('kJ/mol/K') * T" % (dimless, flag))])
